@@ -78,12 +78,12 @@ theorem DUse.snk (s : Nat) (cl : Client) (rs : DevState) : ∀ a ∈ snkActs s, 
   all_goals (first | (constructor <;> (first | assumption | ((try simp only [snkHold, srcHold] at *) <;> grind))))
 
 set_option maxHeartbeats 4000000 in
-theorem DUse.src (s : Nat) (cl : Client) (rs : DevState) : ∀ a ∈ srcActs s, ∀ st, a.guard st = true → TInv s st cl rs → st.cam.failAt = none → st.cam.emptyEvery = 0 →
+theorem DUse.src (s : Nat) (cl : Client) (rs : DevState) : ∀ a ∈ srcActs s, ∀ st, a.guard st = true → TInv s st cl rs → st.cam.emptyEvery = 0 →
     DUse s st cl → DUse s (a.upd st) cl := by
-  intro a ha st hg ht hf he h
+  intro a ha st hg ht he h
   obtain ⟨k1, k2, k3, k4, k5, k6, k7, k8, k9, k10, k11, k12, k13⟩ := h
   have t1 := ht.start_src; have t2 := ht.after_err_stop
-  have hnf : camFault st = false := by simp [camFault, faultHits, hf]
+  have hnf : st.cam.failAt = none → camFault st = false := by intro hf; simp [camFault, faultHits, hf]
   have hne : camEmpty st = false := by simp [camEmpty, he]
   -- what the channel operations of this thread do, in the view
   have hwf := cv_wmap_fail st.sinkCh st.F
@@ -96,9 +96,7 @@ theorem DUse.src (s : Nat) (cl : Client) (rs : DevState) : ∀ a ∈ srcActs s, 
   -- src.wmap.ok
   case inr.inr.inr.inr.inr.inr.inr.inr.inl =>
     obtain ⟨b, hb⟩ := (isWok_iff _).mp hg.2
-    have hp : st.sinkCh.pending = false := by
-      have := k7; rcases hg.1.1 with e | e <;> simp_all [srcHold]
-    obtain ⟨hok, hcv⟩ := hwo b hp hb
+    obtain ⟨hok, hcv⟩ := hwo b hb
     constructor
     all_goals (try simp only [hcv])
     all_goals (first | assumption | ((try simp only [srcHold] at *) <;> grind))
@@ -111,14 +109,16 @@ theorem DUse.src (s : Nat) (cl : Client) (rs : DevState) : ∀ a ∈ srcActs s, 
     all_goals (first | assumption | ((try simp only [srcHold] at *) <;> grind))
   -- src.abort
   case inr.inr.inr.inr.inr.inr.inr.inr.inr.inr.inr.inr.inr.inr.inr.inr.inr.inl =>
-    have hp : st.sinkCh.pending = true := by have := k7; simp_all [srcHold]
+    have hsh : srcHold st.src.pc = true := by (have := hg.1; simp_all [srcHold])
+    have hp : st.sinkCh.pending = true := k7 hsh
     obtain ⟨hok, hcv⟩ := hab hp
     constructor
     all_goals (try simp only [hcv])
     all_goals (first | assumption | ((try simp only [srcHold] at *) <;> grind))
   -- src.commit
   case inr.inr.inr.inr.inr.inr.inr.inr.inr.inr.inr.inr.inr.inr.inr.inr.inr.inr.inl =>
-    have hp : st.sinkCh.pending = true := by have := k7; simp_all [srcHold]
+    have hsh : srcHold st.src.pc = true := by (have := hg.1; simp_all [srcHold])
+    have hp : st.sinkCh.pending = true := k7 hsh
     obtain ⟨hok, hcv⟩ := hcm hp
     constructor
     all_goals (try simp only [hcv])
